@@ -92,6 +92,18 @@ func main() {
 			defer wg.Done()
 			<-start
 			var h uint64
+			// first of all: even goroutines decode only the values an 8-bit image holds (multiples of 257), odd ones only
+			// other values — callers of one kind of image each, meeting at first use
+			for q := 0; q < 512; q++ {
+				v := uint16((q % 256) * 257)
+				if g%2 == 1 {
+					v = uint16(q*251 + g + 1)
+					if v%257 == 0 {
+						v++
+					}
+				}
+				h = h*31 + uint64(math.Float32bits(srgb.From16Bit(v))) + uint64(math.Float32bits(adobergb.From16Bit(v)))<<1 + uint64(math.Float32bits(prophotorgb.From16Bit(v)))<<2
+			}
 			for k := 0; k < 3; k++ {
 				v := uint16(1000*g + 77*k)
 				// the lazily initialised 16-bit tables, first use
